@@ -36,6 +36,7 @@ func (m *Model) expect(sn any, v any, p Pos) any {
 		np := p
 		np.File = file
 		np.Named = true
+		np.DefStack = append(append([]string{}, p.DefStack...), file+"|"+ref[strings.IndexByte(ref+"#", '#'):])
 		if ts, ok := t.(map[string]any); ok && m.dev("REF_UNTYPED_DEF_IS_ANY") && strings.Contains(ref, "#/") && len(ts) > 0 {
 			_, hasType := ts["type"]
 			_, hasProps := ts["properties"]
@@ -48,6 +49,10 @@ func (m *Model) expect(sn any, v any, p Pos) any {
 	}
 	if v == nil {
 		return nil
+	}
+	if anyOf, ok := s["anyOf"].([]any); ok && m.dev("RECURSIVE_ANYOF_IS_ANY") && m.cyclicBranch(anyOf, p) {
+		m.fire("RECURSIVE_ANYOF_IS_ANY")
+		return rawValue(v)
 	}
 	if m.dev("COMPOSITE_DEF_REF_IS_ANY") && p.Named && compositeWithRef(s, typeList(s)) {
 		m.fire("COMPOSITE_DEF_REF_IS_ANY")
